@@ -136,6 +136,22 @@ theorem campaign_rowwise (rows : List CampRow) (evs : List Event)
     have := parseRows_clean eventOfRow rows 0 evs h
     exact ⟨this.1, fun k hk hk' => eventOfRow_spec _ _ (this.2 k hk hk')⟩
 
+/-- **Library reading** (`LOGGER.critical` does not stop the run): whatever is reported, the
+events are exactly the individually accepted rows, in row order, and every critical names
+the row that caused it. -/
+theorem campaign_library_rowwise (rows : List CampRow) (evs : List Event) (cs : List (Nat × Crit))
+    (h : parseCampaign rows = .ok (evs, cs)) :
+    evs = accepted eventOfRow rows ∧
+    ∀ p ∈ cs, ∃ (hk : p.1 < rows.length), eventOfRow rows[p.1] = .crit p.2 := by
+  unfold parseCampaign at h
+  cases hv : validateAll validateCampRow rows with
+  | some e => simp [hv] at h
+  | none =>
+    simp only [hv] at h
+    refine ⟨parseRows_out _ _ _ _ _ h, fun p hp => ?_⟩
+    obtain ⟨_, h2, h3⟩ := parseRows_crit_bound _ _ _ _ _ h p hp
+    exact ⟨by simpa using h2, by simpa using h3⟩
+
 /-- rendering keeps one entry per event -/
 theorem render_events_length (c : Nat) (evs : List Event) :
     ∀ i, (renderEventsFrom c i evs).length = evs.length := by
@@ -334,6 +350,20 @@ theorem trigger_rowwise (rows : List TrigRow) (ts : List Trigger)
     simp only [hv] at h
     have := parseRows_clean triggerOfRow rows 0 ts h
     exact ⟨this.1, fun k hk hk' => triggerOfRow_spec _ _ (this.2 k hk hk')⟩
+
+/-- **Library reading** for trigger sheets. -/
+theorem trigger_library_rowwise (rows : List TrigRow) (ts : List Trigger) (cs : List (Nat × Crit))
+    (h : parseTriggers rows = .ok (ts, cs)) :
+    ts = accepted triggerOfRow rows ∧
+    ∀ p ∈ cs, ∃ (hk : p.1 < rows.length), triggerOfRow rows[p.1] = .crit p.2 := by
+  unfold parseTriggers at h
+  cases hv : validateAll validateTrigRow rows with
+  | some e => simp [hv] at h
+  | none =>
+    simp only [hv] at h
+    refine ⟨parseRows_out _ _ _ _ _ h, fun p hp => ?_⟩
+    obtain ⟨_, h2, h3⟩ := parseRows_crit_bound _ _ _ _ _ h p hp
+    exact ⟨by simpa using h2, by simpa using h3⟩
 
 def trow1 : TrigRow :=
   { type := "K".toList, keywords := ["hello".toList, "hi".toList], flow := "f".toList,
